@@ -21,7 +21,9 @@ CFG = dict(
                  "one IPv4 pool selecting every node, no IP reservations, IPCooldownSeconds=0, no MaxAllocToHandlePerIPVersion, "
                  "no Windows reserved handle, ReleaseIPs called with addresses of one block",
                  "randomBlockGenerator's start index and Go map iteration order are inputs (universally quantified in the theorems)",
-                 "blocks claimed less than one minute ago are never reclaimed (EmptyBlockMinReclaimAge)"],
+                 "blocks claimed less than one minute ago are never reclaimed (EmptyBlockMinReclaimAge)",
+                 "the variant of claimAffineBlock (with / without fixes/C22-claim-existing-block-bumps-revision.patch) is probed "
+                 "by the driver on the tree under test and passed to the model as c_fx; all theorems are for both variants"],
 )
 
 def classify(line):
